@@ -8,7 +8,7 @@ assume ensures); library calls use the assumed models of pyvc.lib.
 import ast
 import z3
 
-from .core import (Arr, Ref, Obj, PyList, PyDict, Ragged, View, Ctx, Hinted, Scoped, Unsupported, EngineError, is_sym, to_real,
+from .core import (Arr, Ref, Obj, PyList, PyDict, Ragged, View, Ctx, Hinted, Scoped, Pure, Congr, Unsupported, EngineError, is_sym, to_real,
                    to_int, as_term, conc_int, real_const, _unify, INT, REAL, BOOL)
 from . import source
 
@@ -17,10 +17,11 @@ UNROLL_LIMIT = 24
 
 
 class Obl:
-    __slots__ = ('name', 'kind', 'hyps', 'goal', 'line', 'note')
+    __slots__ = ('name', 'kind', 'hyps', 'goal', 'line', 'note', 'ground')
 
-    def __init__(self, name, kind, hyps, goal, line=0, note=''):
+    def __init__(self, name, kind, hyps, goal, line=0, note='', ground=False):
         self.name, self.kind, self.hyps, self.goal, self.line, self.note = name, kind, list(hyps), goal, line, note
+        self.ground = ground
 
 
 class ExcV:
@@ -176,8 +177,16 @@ class Exec:
             base = hyps
             lems = []
             for i, lem in enumerate(goal.lemmas):
-                lem = as_term(lem) if not is_sym(lem) else lem
-                self.obls.append(Obl('%s.hint%d' % (name, i), kind, hyps, lem, line, note))
+                if isinstance(lem, Congr):
+                    self.obls.append(Obl('%s.hint%d' % (name, i), kind, hyps, lem.pointwise, line, note))
+                    lem = lem.concl
+                elif isinstance(lem, Pure):
+                    self.obls.append(Obl('%s.hint%d' % (name, i), kind, [h for h in lem.hyps if h is not True], lem.goal,
+                                         line, note, ground=lem.ground))
+                    lem = lem.goal
+                else:
+                    lem = as_term(lem) if not is_sym(lem) else lem
+                    self.obls.append(Obl('%s.hint%d' % (name, i), kind, hyps, lem, line, note))
                 hyps = hyps + [lem]
                 lems.append(lem)
             if goal.final_uses is not None:
@@ -585,7 +594,14 @@ class Exec:
             s = base.fork()
             for n in mod_names:
                 if n in s.env:
-                    s.env[n] = self.fresh_like(s.env[n], n, s)
+                    try:
+                        s.env[n] = self.fresh_like(s.env[n], n, s)
+                    except Unsupported:
+                        if n not in self._nested_for_targets(node):
+                            raise
+                        # target of a nested for loop holding an object: (re)bound by that loop before any read in
+                        # the body; left unbound here, so a read of the stale value is an error, never a wrong value
+                        del s.env[n]
                 # names first bound inside the body stay unbound
             for cid in mod_cells:
                 cell = s.heap.get(cid)
@@ -633,6 +649,13 @@ class Exec:
         exit_st.env['loop%d_exit' % ordinal] = kx
         outs.append((exit_st, 'next', None))
         return outs
+
+    def _nested_for_targets(self, node):
+        out = set()
+        for n in _walk_stmts(node.body):
+            if isinstance(n, ast.For):
+                out.update(_target_names(n.target))
+        return out
 
     def assumed_inv(self, inv, st, v0, k):
         """the invariant as a hypothesis: ForallH clauses become real universal statements"""
@@ -2132,7 +2155,7 @@ class _Fork(Exception):
 _MISSING = object()
 BUILTINS = {'len', 'range', 'min', 'max', 'abs', 'int', 'float', 'sum', 'zip', 'enumerate', 'isinstance', 'list',
             'tuple', 'bool', 'str', 'sorted', 'hasattr', 'round', 'any', 'all', 'dict', 'getattr', 'type', 'map',
-            'reversed', 'set', 'callable', 'repr'}
+            'reversed', 'set', 'callable', 'repr', 'pow'}
 CANON = {'np': 'numpy', 'numpy': 'numpy', 'math': 'math', 'scipy': 'scipy'}
 CMP = {ast.Lt: lambda a, b: a < b, ast.LtE: lambda a, b: a <= b, ast.Gt: lambda a, b: a > b,
        ast.GtE: lambda a, b: a >= b, ast.Eq: lambda a, b: a == b, ast.NotEq: lambda a, b: a != b}
